@@ -84,6 +84,8 @@ def cases(unit):
         for n, b in ((0, 3), (7, 3), (9, 3), (10, 20)):
             yield {'fam': 'codec', 'codec': unit['codec'], 'rows': n, 'batch': b}
     else:
+        for n, b in ((600, 300), (601, 300), (257, 257)):
+            yield {'fam': 'variants', 'rows': n, 'batch': b, 'row_group_size': None, 'nested': False, 'fileobj': False}
         for n, b in ((0, 2), (5, 2), (6, 2), (6, 3), (7, 10)):
             for rg in (None, 3):
                 for nested in (False, True):
